@@ -13,7 +13,13 @@
 (* is described by                                                         *)
 (*   c : the Dialer configuration                                          *)
 (*       [proxy, phost, pport, puser, ppass, nd, ndc, ndtc, subs, comp,    *)
-(*        tmo, jar]                                                        *)
+(*        tmo, jar, rbuf]                                                  *)
+(*       tmo: which deadlines are configured (none / ht = HandshakeTimeout *)
+(*       / ctx = context deadline / bothe = both, the context deadline is  *)
+(*       the earlier instant / bothl = both, the HandshakeTimeout is);     *)
+(*       rbuf = Dialer.ReadBufferSize.  No clause of the model depends on  *)
+(*       rbuf or on how the transport segments the reply (d.reply.seg):    *)
+(*       every outcome below is demanded for all of them alike.            *)
 (*   d : the inputs of one DialContext call                                *)
 (*       [scheme, user, host, bare, hform, port, path, hasq, query, frag,  *)
 (*        hdrs, reply, creply, cert]                                       *)
@@ -25,6 +31,9 @@
 (*       peer   what the remote side saw, layer by layer                   *)
 (*              (tls / connect / socks / get / junk records)               *)
 (*       res    result class of DialContext                                *)
+(*       rx     the messages read from the returned connection when the    *)
+(*              server glued frames to its reply (d.reply.tail)            *)
+(*       plook  how often the Dialer consulted its Proxy function          *)
 (*       short  the run used a deliberately short timeout                   *)
 (*   st: history state [keys] (challenge keys seen in earlier dials)       *)
 (*                                                                         *)
@@ -128,6 +137,38 @@ ExtBad(r) == r.ext \in {"pmd_s", "pmd_c", "pmd0"}
 NoBody(status) == status \in 100..199 \/ status \in {204, 304}
 
 (***************************************************************************)
+(* Handshake boundary, client side (C17).  The server may glue frames to   *)
+(* its 101 response (d.reply.tail, a sequence of [op, fin, len] forming    *)
+(* complete messages).  However the transport cuts "response + frames"     *)
+(* into reads and whatever the read buffer size, the connection returned   *)
+(* by Dial delivers exactly the data messages of those frames, complete    *)
+(* and in order, and then the end of the stream.                           *)
+(***************************************************************************)
+TailOf(d) == IF d.reply.mode = "std" THEN d.reply.tail ELSE << >>
+RECURSIVE MsgFold(_, _, _, _)
+MsgFold(fs, i, cur, acc) ==
+  IF i > Len(fs) THEN acc
+  ELSE LET f == fs[i] IN
+       IF f.op >= 8 THEN MsgFold(fs, i + 1, cur, acc)                     \* control frames are not delivered
+       ELSE LET c2 == IF f.op # 0 THEN [type |-> f.op, len |-> f.len]
+                      ELSE [type |-> cur.type, len |-> cur.len + f.len]
+            IN IF f.fin THEN MsgFold(fs, i + 1, [type |-> 0, len |-> 0], Append(acc, c2))
+               ELSE MsgFold(fs, i + 1, c2, acc)
+Messages(fs) == MsgFold(fs, 1, [type |-> 0, len |-> 0], << >>)
+
+(* o.rx[j] = [ok, type, n, eq]: result of the j-th ReadMessage; eq = the    *)
+(* indices of the sent messages whose type and bytes equal the delivered    *)
+(* ones (a harness fact).                                                   *)
+RxOK(d, o) ==
+  LET M == Messages(TailOf(d)) IN
+  IF ~o.res.conn \/ TailOf(d) = << >> THEN o.rx = << >>
+  ELSE /\ Len(o.rx) = Len(M) + 1
+       /\ \A j \in 1..Len(M) :
+            /\ o.rx[j].ok /\ o.rx[j].type = M[j].type /\ o.rx[j].n = M[j].len
+            /\ j \in DRng(o.rx[j].eq)                                      \* TrailingBytesDelivered, in order
+       /\ ~o.rx[Len(M) + 1].ok                                             \* nothing invented after them
+
+(***************************************************************************)
 (* Folding the transport log.                                              *)
 (***************************************************************************)
 IsRW(op) == op.kind \in {"R", "W"}
@@ -185,7 +226,7 @@ DeadlineOK(c, o, socksStrict) ==
 (* C18: hooks and layers.                                                  *)
 (***************************************************************************)
 HooksOK(c, d, o) ==
-  IF MustRefuse(c, d) THEN o.hooks = << >>
+  IF MustRefuse(c, d) THEN o.hooks = << >> /\ o.plook = 0     \* no dial hook, no proxy lookup
   ELSE \/ o.hooks = << >> /\ (MayRefuse(c, d) \/ (Loop(c, d) /\ ~o.res.conn))
        \/ /\ Len(o.hooks) = 1
           /\ o.hooks[1].hook = ExpHook(c, d)            \* FirstHopUsesApplicableHook
@@ -252,11 +293,14 @@ ReplyOutcomeOK(d, o) ==
     [] r.mode = "none" -> Failure(o)
     [] OTHER ->
        IF AccAmbig(r.acc) THEN TRUE
-       ELSE IF Proven(r) /\ ~ExtBad(r) THEN o.res.conn /\ o.res.status = 101       \* connect IF proven
+       ELSE IF Proven(r) /\ ~ExtBad(r) THEN o.res.conn /\ o.res.status = 101 /\ RxOK(d, o)   \* connect IF proven
        ELSE IF Proven(r) THEN Failure(o)
        ELSE \* BadReplyIsErrBadHandshakeWithResponse
             /\ ~o.res.conn /\ o.res.err = "badhs" /\ o.res.resp
             /\ o.res.status = r.status /\ o.res.marker
+            \* the body handed over is a prefix of the body sent, at most 1024 bytes of it, and - the transport
+            \* having delivered the whole reply (nothing was disturbed) - exactly its first min(1024, length)
+            \* bytes, however the reply was segmented and whatever the read buffer size
             /\ o.res.bodyok /\ o.res.bodyn <= DMin(r.blen, 1024)
             /\ ~NoBody(r.status) => o.res.bodyn = DMin(r.blen, 1024)
 
